@@ -6,12 +6,13 @@ package main
 // along an ascending humidity grid at fixed temperature).
 //
 // Discontinuities. The wet-bulb bisection takes two kinds of decisions on computed values: `(h − fmid) > 0` and
-// `|dx| < 1e-4`. The model (Lean, C libm) and the code (Go math) agree on pow/log10/log only to a few ulp, so a sample
-// that sits within a few ulp of such a decision boundary may legitimately take the other branch, which changes the wet
-// bulb by up to the last bracket width (≤ 1e-4 °C). Such samples have probability ≈ 1e-14/1e-4 per bisection step; the
-// generator nevertheless REJECTS samples that come within 1e-9 (relative) of a decision boundary, using the reference
-// formulas below (a transcription used ONLY for this filter, never as an oracle), so that the 1e-9 correspondence
-// tolerance is sound for every emitted sample. Rejections are counted (expected: 0).
+// `|dx| < 1e-4`. The model (Lean, C libm) and the code (Go math) agree on pow/log10/log only to a few ulp (≈1e-15
+// relative), so a sample that sits within a few ulp of such a decision boundary may legitimately take the other branch,
+// which changes the wet bulb by up to the last bracket width (≤ 1e-4 °C). The generator therefore REJECTS (re-draws the
+// humidity of) samples that come within 1e-12 relative — a thousand times the libm disagreement — of a decision boundary,
+// using the reference formulas below (a transcription used ONLY for this filter, never as an oracle), so that the 1e-9
+// correspondence tolerance is sound for every emitted sample. A bisection step hits such a neighbourhood with probability
+// ≈ (1e-12·|h| / slope) / bracket width, summed over the steps ≈ 3e-7 per sample; rejections are counted in the histogram.
 
 import "math"
 
@@ -149,7 +150,7 @@ func init() {
 				}
 			}
 			for i := range dry {
-				for tries := 0; climNearTie(dry[i], hum[i], elev, 1e-9) && tries < 20; tries++ {
+				for tries := 0; climNearTie(dry[i], hum[i], elev, 1e-12) && tries < 20; tries++ {
 					climNearTieRejected++
 					// nudge the humidity (keeps temperature grids intact)
 					hum[i] = math.Min(100, math.Max(1e-6, hum[i]*(1-1e-6*(1+r.F01()))))
